@@ -840,6 +840,45 @@ def _one_cell(ck, st, X, K, rng, cr, ref, Eg, quick, nodata):
 
 
 # ------------------------------------------------------------------------------------------------------------
+def inplace_probe(ck, st, X, rng, tier):
+    """A caller-owned struct EDITED IN PLACE between two calls with bit-identical energy and Miller triple (a strain / thermal-expansion scan), and a
+    crystal freed and re-fetched (the next one tends to land at the same address): every function must answer for the CONTENT it is handed, i.e.
+    exactly what it answers for a fresh struct at another address holding the same numbers."""
+    n = bad = 0
+    E, H = 8.04778, (1, 1, 1)
+    fns = (('Crystal_dSpacing', lambda: (H[0], H[1], H[2])), ('Bragg_angle', lambda: (E, H[0], H[1], H[2])), ('Q_scattering_amplitude', lambda: (E, H[0], H[1], H[2], 1.0)),
+           ('Crystal_F_H_StructureFactor', lambda: (E, H[0], H[1], H[2], 1.0, 1.0)), ('Crystal_F_H_StructureFactor_Partial', lambda: (E, H[0], H[1], H[2], 1.0, 1.0, 2, 2, 2)))
+    names = ['Si', 'Ge', 'Diamond', 'AlphaQuartz', 'LaB6', 'GaAs', 'InSb', 'Beryl'][:8 if tier == 'thorough' else 5]
+
+    def show(v):
+        return repr(v)
+    for rep in range(2):
+        for nm in names:
+            g = X.get_crystal(nm)
+            if isinstance(g, xl.Err):
+                continue
+            p, d = g
+            cs = p.contents
+            for step in range(5):
+                f = 1.0 + 0.002 * step
+                cs.a, cs.b, cs.c = d['a'] * f, d['b'] * f, d['c'] * f                     # edited in place: same address, other cell
+                vol = X.cnum('Crystal_UnitCellVolume', p)
+                if isinstance(vol, xl.Err):
+                    break
+                cs.volume = vol
+                fresh = X.make_crystal(nm, (cs.a, cs.b, cs.c, d['alpha'], d['beta'], d['gamma']), d['atoms'], volume=vol)
+                for fn, args in fns:
+                    v1 = X.cnum(fn, p, *args()); v2 = X.cnum(fn, fresh, *args()); n += 2
+                    if show(v1) != show(v2) and not (isinstance(v1, xl.Err) and isinstance(v2, xl.Err)):
+                        bad += 1
+                        if bad <= 4:
+                            ck.violation('c13:%s:answer-follows-the-address-not-the-content' % fn, '%s on %s with the cell scaled in place by %g gives %s; a fresh struct holding the same numbers gives %s' % (fn, nm, f, show(v1), show(v2)),
+                                         dict(function=fn, crystal=nm, cell_scale=f, energy=E, reflection=list(H), edited_in_place=show(v1), fresh_struct=show(v2)))
+            X.free_crystal(p)               # ... the next crystal fetched tends to get this address
+    st['inplace_edit_calls'] = n
+    return n
+
+
 def main(tier):
     ck = common.Check('C13', tier)
     mac = refdata.Macros()
@@ -863,6 +902,17 @@ def main(tier):
         raise common.Inconclusive('the elements assumed to lack form-factor data have some: %r' % (np.intersect1d(NODATA_Z, goodZ),))
     builtin_workload(ck, st, L, X, K, rng, tier)
     generated_workload(ck, st, X, K, rng, tier, goodZ)
+    inplace_probe(ck, st, X, rng, tier)
+    # a host thread in a directed rounding mode gets the same geometry and structure factors up to rounding
+    _names = ['Si', 'Ge', 'AlphaAlumina', 'AlphaQuartz', 'LaB6', 'Muscovite', 'GaAs', 'Beryl']
+    _n, _h = [x.ravel() for x in np.meshgrid(np.arange(len(_names)), np.arange(6), indexing='ij')]
+    _H = np.array([(1, 1, 1), (2, 2, 0), (0, 0, 0), (3, 1, 1), (-1, -1, -1), (4, 0, 0)])[_h]
+    _s = [_names[k] for k in _n]
+    st['calls_in_directed_rounding_modes'] = execlib.rounding_modes(ck, 'c13', 'shipped', [], special=[
+        ('Crystal_dSpacing', dict(s=_s, i=[_H[:, 0], _H[:, 1], _H[:, 2]])), ('Bragg_angle', dict(s=_s, i=[_H[:, 0], _H[:, 1], _H[:, 2]], d=[17.44])),
+        ('Q_scattering_amplitude', dict(s=_s, i=[_H[:, 0], _H[:, 1], _H[:, 2]], d=[17.44, 1.0])),
+        ('Crystal_F_H_StructureFactor', dict(s=_s, i=[_H[:, 0], _H[:, 1], _H[:, 2]], d=[17.44, 1.0, 1.0])),
+        ('Crystal_F_H_StructureFactor_Partial', dict(s=_s, i=[_H[:, 0], _H[:, 1], _H[:, 2], 2, 2, 0], d=[17.44, 1.0, 1.0]))])
     if st['sf_compared'] < 1000 or st['bragg_reflection'] < 1000 or st['d_compared'] < 10000:
         raise common.Inconclusive('too few comparisons: %d structure factors, %d Bragg angles, %d d-spacings' % (st['sf_compared'], st['bragg_reflection'], st['d_compared']))
     if st['bragg_noreflection'] < 100 or st['sf_expected_error'] < 20:
